@@ -216,6 +216,9 @@ def run(ctx: Ctx):
     col.ob("G20", "S4", f"{where_f}::neg-inf-mass*anything", not fs,
            "CTCPrefixSearch.forward multiplies a -inf padded mass: " + "; ".join(u(s[0])[:60] for s in fs[:3]),
            rel, fs[0][0].lineno if fs else fwd.line, sample=[u(s[0])[:80] for s in fs] or "none")
+    # shallow fusion: each component keeps its own state through split / extract / mix / merge
+    from .search_common import fusion_component_lineage
+    fusion_component_lineage(ctx, "S3")
     plumbing(ctx, "S1")
     return dict(
         explanation=(
@@ -345,6 +348,8 @@ def _mutants():
     from selftest.mutate import Mutant as M
     D = "_decoding.py"
     return [
+        M("fused-merge-swapped", "_lm.py", "return self.merge_dicts(prev_first, prev_second)", "return self.merge_dicts(prev_second, prev_first)", "merge_dicts[", -1),
+        M("fused-mix-crosses-components", "_lm.py", "prev_second = self.second.mix_by_mask(prev_second_true, prev_second_false, mask)", "prev_second = self.second.mix_by_mask(prev_first_true, prev_second_false, mask)", "own-state"),
         M("mass-times-mask-again", D, "b_nonext_probs_cand.gather(1, next_src).masked_fill(~next_is_nonext, 0.0)",
           "b_nonext_probs_cand.gather(1, next_src) * next_is_nonext", "neg-inf-mass*bool-mask"),
         M("nb-mass-times-mask", D, "nb_probs_next = torch.where(next_is_nonext, nb_nonext_probs_next, nb_ext_probs_next)",
